@@ -151,7 +151,7 @@ def bmp_load_rules():
         Rule('new_data_unique.get()', '(*new_data_unique)', count=1),
         Rule('auto row_data_unique = malloc_unique(', 'void* row_data_unique = C06_malloc_unique(', count=1),
         Rule('row_data_unique.get()', 'row_data_unique', count=1),
-        Rule(r'\bfreadx\(([^;]*)\);', r'C06_freadx(\1); if (verif_exc) return;', count=1, regex=True),
+        Rule(r'\bfreadx\(([^;]*)\);', r'C06_freadx(\1); if (verif_exc) return;', count='+', regex=True),
     ]
 
 
